@@ -4,12 +4,14 @@ CONSTANTS XKinds = {"lit"}
           Aliases = {"none"}
           Delays = {"par","par_par2"}
           Opts = {"base"}
+          FKinds = {"none"}
           Typed = {FALSE}
           Strs = {FALSE}
           Outs = {TRUE}
           SwapDepClasses = FALSE
           ForgetOutputs = FALSE
           DurDepsOffByOne = TRUE
+          ConstMXNotMX = FALSE
           TruthyOptions = FALSE
 INIT Init
 NEXT Next
